@@ -102,66 +102,93 @@ struct Needle {
     size_t count;       // count passed with p (1 with the null pointer: the null guard must fire)
     bool one;           // single unit: the char overload applies
     char ch;
+    std::vector<char> rb, db;   // the real bytes, and decoy bytes of the same length (letters / digits shifted by one)
+    bool isnull;
     explicit Needle(const std::string &tok)
         : p(units<char>(tok)), z(units<char>(tok, 1)),
           s(tok == "-" ? ST::string() : ST::string::from_validated(p.data(), p.size())),
-          count(tok == "-" ? 1 : p.size()), one(tok != "-" && p.size() == 1), ch(one ? p.data()[0] : 0) {}
+          count(tok == "-" ? 1 : p.size()), one(tok != "-" && p.size() == 1), ch(one ? p.data()[0] : 0), isnull(tok == "-")
+    {
+        if (!isnull) {
+            rb.assign(p.p, p.p + p.n);
+            db = rb;
+            for (char &c : db) {
+                unsigned char v = static_cast<unsigned char>(c);
+                if ((v >= 'a' && v < 'z') || (v >= 'A' && v < 'Z') || (v >= '0' && v < '9')) c = char(v + 1);
+                else if (v == 'z' || v == 'Z' || v == '9') c = char(v - 1);
+            }
+        }
+    }
+    // the same argument objects, at the same addresses, holding other content: a search that remembers its previous
+    // needle by address and length goes wrong on the real call that follows
+    void put(const std::vector<char> &b)
+    {
+        if (isnull || b.empty()) return;
+        memcpy(p.p, b.data(), b.size());
+        memcpy(z.p, b.data(), b.size());
+        s = ST::string::from_validated(b.data(), b.size());
+        if (one) ch = b[0];
+    }
+    void decoy() { if (db != rb) put(db); }
+    void real() { if (db != rb) put(rb); }
 };
+// evaluate `expr` once on the decoy content (result discarded), then on the real content
+#define PAIRED(n, expr) ((n).decoy(), (void)(expr), (n).real(), (expr))
 
 struct Res { long long p, s, z, c; bool one; };
 
-static Res find_all(const ST::string &H, const Needle &n, size_t start, ST::case_sensitivity_t cs)
+static Res find_all(const ST::string &H, Needle &n, size_t start, ST::case_sensitivity_t cs)
 {
     Res r;
-    r.p = H.find(start, n.p.data(), n.count, cs);
-    r.s = H.find(start, n.s, cs);
-    r.z = H.find(start, n.z.data(), cs);
+    r.p = PAIRED(n, H.find(start, n.p.data(), n.count, cs));
+    r.s = PAIRED(n, H.find(start, n.s, cs));
+    r.z = PAIRED(n, H.find(start, n.z.data(), cs));
     r.one = n.one;
-    r.c = n.one ? (long long)H.find(start, n.ch, cs) : -2;
+    r.c = n.one ? (long long)PAIRED(n, H.find(start, n.ch, cs)) : -2;
     return r;
 }
-static Res find0_all(const ST::string &H, const Needle &n, ST::case_sensitivity_t cs)
+static Res find0_all(const ST::string &H, Needle &n, ST::case_sensitivity_t cs)
 {
     Res r;
-    r.p = H.find(n.p.data(), n.count, cs);
-    r.s = H.find(n.s, cs);
-    r.z = H.find(n.z.data(), cs);
+    r.p = PAIRED(n, H.find(n.p.data(), n.count, cs));
+    r.s = PAIRED(n, H.find(n.s, cs));
+    r.z = PAIRED(n, H.find(n.z.data(), cs));
     r.one = n.one;
-    r.c = n.one ? (long long)H.find(n.ch, cs) : -2;
+    r.c = n.one ? (long long)PAIRED(n, H.find(n.ch, cs)) : -2;
     return r;
 }
-static Res findl_all(const ST::string &H, const Needle &n, size_t max, ST::case_sensitivity_t cs)
+static Res findl_all(const ST::string &H, Needle &n, size_t max, ST::case_sensitivity_t cs)
 {
     Res r;
-    r.p = H.find_last(max, n.p.data(), n.count, cs);
-    r.s = H.find_last(max, n.s, cs);
-    r.z = H.find_last(max, n.z.data(), cs);
+    r.p = PAIRED(n, H.find_last(max, n.p.data(), n.count, cs));
+    r.s = PAIRED(n, H.find_last(max, n.s, cs));
+    r.z = PAIRED(n, H.find_last(max, n.z.data(), cs));
     r.one = n.one;
-    r.c = n.one ? (long long)H.find_last(max, n.ch, cs) : -2;
+    r.c = n.one ? (long long)PAIRED(n, H.find_last(max, n.ch, cs)) : -2;
     return r;
 }
-static Res findl0_all(const ST::string &H, const Needle &n, ST::case_sensitivity_t cs)
+static Res findl0_all(const ST::string &H, Needle &n, ST::case_sensitivity_t cs)
 {
     Res r;
-    r.p = H.find_last(n.p.data(), n.count, cs);
-    r.s = H.find_last(n.s, cs);
-    r.z = H.find_last(n.z.data(), cs);
+    r.p = PAIRED(n, H.find_last(n.p.data(), n.count, cs));
+    r.s = PAIRED(n, H.find_last(n.s, cs));
+    r.z = PAIRED(n, H.find_last(n.z.data(), cs));
     r.one = n.one;
-    r.c = n.one ? (long long)H.find_last(n.ch, cs) : -2;
+    r.c = n.one ? (long long)PAIRED(n, H.find_last(n.ch, cs)) : -2;
     return r;
 }
 struct Has { int cp, cs_, cz, cc, sws, swz, ews, ewz; };
-static Has has_all(const ST::string &H, const Needle &n, ST::case_sensitivity_t cs)
+static Has has_all(const ST::string &H, Needle &n, ST::case_sensitivity_t cs)
 {
     Has r;
-    r.cp = H.contains(n.p.data(), n.count, cs) ? 1 : 0;
-    r.cs_ = H.contains(n.s, cs) ? 1 : 0;
-    r.cz = H.contains(n.z.data(), cs) ? 1 : 0;
-    r.cc = n.one ? (H.contains(n.ch, cs) ? 1 : 0) : -2;
-    r.sws = H.starts_with(n.s, cs) ? 1 : 0;
-    r.swz = H.starts_with(n.z.data(), cs) ? 1 : 0;
-    r.ews = H.ends_with(n.s, cs) ? 1 : 0;
-    r.ewz = H.ends_with(n.z.data(), cs) ? 1 : 0;
+    r.cp = PAIRED(n, H.contains(n.p.data(), n.count, cs) ? 1 : 0);
+    r.cs_ = PAIRED(n, H.contains(n.s, cs) ? 1 : 0);
+    r.cz = PAIRED(n, H.contains(n.z.data(), cs) ? 1 : 0);
+    r.cc = n.one ? (PAIRED(n, H.contains(n.ch, cs)) ? 1 : 0) : -2;
+    r.sws = PAIRED(n, H.starts_with(n.s, cs) ? 1 : 0);
+    r.swz = PAIRED(n, H.starts_with(n.z.data(), cs) ? 1 : 0);
+    r.ews = PAIRED(n, H.ends_with(n.s, cs) ? 1 : 0);
+    r.ewz = PAIRED(n, H.ends_with(n.z.data(), cs) ? 1 : 0);
     return r;
 }
 
@@ -294,4 +321,4 @@ static std::string dispatch(const std::string &op, const Args &a)
     exit(2);
 }
 
-int main(int argc, char **argv) { return run_main(argc, argv, dispatch); }
+int main(int argc, char **argv) { vh::g_decoy = true; return run_main(argc, argv, dispatch); }
